@@ -207,7 +207,8 @@ RULES = {
 _TIE_TEXT = ' In addition the model is REGENERATED from the source on every run: harness/translate translates the Go functions (go/types-checked subset) to Gallina and coq/translate/Equiv.v re-proves, for all inputs, that each translated function equals the hand-written model; a semantic change of a translated function breaks that proof obligation.'
 _TIE_NOTE = " Added trusted base of the translation tie: the translator harness/translate/main.go (unverified Go program) and Translate/GoSem.v's reading of Go's integer semantics."
 for _pid in ['C06']:
-    PROPERTIES[_pid] = dict(PROPERTIES[_pid], text=PROPERTIES[_pid]["text"] + _TIE_TEXT, note=PROPERTIES[_pid]["note"] + _TIE_NOTE)
+    PROPERTIES[_pid] = dict(PROPERTIES[_pid], text=PROPERTIES[_pid]["text"] + _TIE_TEXT,
+                            note=PROPERTIES[_pid]["note"] + _TIE_NOTE + translate_tie.TIE_NOTE_WIRE)
 translate_tie.describe(PROPERTIES, "C07", "(here: the split function scanFrames of receiver.go, = the model's scan_frames)",
                        translate_tie.TIE_NOTE_INT, translate_tie.TIE_NOTE_SLICE)
 
